@@ -82,7 +82,7 @@ def _decades(lo, hi, first_transition):
     return out
 
 
-def check_window(acc: Acc, zc: _Z, z, u, lo, hi):
+def check_window(acc: Acc, zc: _Z, z, u, lo, hi, ref=None):
     """walk [lo, hi] through the provider's zone, judging every step while the zone's cache is warm; then walk the zone
     underneath the cache and compare.  Returns (first tuple, last tuple, broken) or None when nothing could be walked."""
     zid = zc.zid
@@ -173,6 +173,12 @@ def check_window(acc: Acc, zc: _Z, z, u, lo, hi):
     objs = wz.objs
     n = len(L)
     acc.count(states=n)
+    if ref is not None and L != ref:
+        i = 0
+        while i < min(len(L), len(ref)) and L[i] == ref[i]:
+            i += 1
+        zc.v("reference", "interval #%d of the walk is %s; the zone was built with %s there" % (
+            i, L[i:i + 1] and zw.fmt_iv(L[i]), ref[i:i + 1] and zw.fmt_iv(ref[i])), instant_ns=lo)
     if lo == MIN_NS and L[0][0] is not None:
         zc.v("first-has-start", "the interval at Instant.min_value has a start: %s" % zw.fmt_iv(L[0]), instant_ns=lo)
     if hi == MAX_NS and not wz.error:
@@ -223,6 +229,9 @@ def check_window(acc: Acc, zc: _Z, z, u, lo, hi):
     # ---- cache-order histories on fresh cached zones, for every transition on the first or last day of a 32-day cache period
     if u is not None:
         check_histories(acc, zc, z, u, L, lo, hi)
+    # ---- route histories: get_utc_offset as the FIRST question about a period whose cache slot holds an aliased period's node
+    if u is not None:
+        check_route_histories(acc, zc, z, u, L, lo, hi)
     # ---- 32-day cache periods with several transitions (all of them are walked and queried after the 2nd transition)
     multi = zw.transitions_per_cache_period(L)
     for pnum, cnt in multi.items():
@@ -304,6 +313,65 @@ def check_histories(acc, zc, z, u, L, lo, hi):
                     break
 
 
+ROUTE_EVERY = 8          # every 8th walked interval (fixed residue: the selection does not depend on the seed)
+
+
+def check_route_histories(acc, zc, z, u, L, lo, hi):
+    """Two-step histories mixing the two query routes.  For every 8th walked interval and a in {start + 33 days, end - 33 days} (instants whose
+    whole 32-day cache period lies inside the interval, when it is long enough), a fresh cached zone is asked
+        get_zone_interval(a), then get_utc_offset(a + 512 periods), get_utc_offset(a - 512 periods), get_utc_offset(a + 1024 periods)
+    - each get_utc_offset is the first question about its period, whose cache slot holds the node of an aliased period.
+    Every offset must be the wall offset of the interval the uncached zone / the walked list gives for that instant."""
+    zid = zc.zid
+    idx = zw.Index(L)
+    span = CACHE_PERIOD_DAYS * CACHE_SLOTS * DAY_NS
+    margin = (CACHE_PERIOD_DAYS + 1) * DAY_NS
+    for k in range(0, len(L), ROUTE_EVERY):
+        t = L[k]
+        s0 = MIN_NS if t[0] is None else t[0]
+        e0 = MAX_NS if t[1] is None else t[1]
+        if e0 - s0 <= 2 * margin:
+            continue
+        for a in (s0 + margin, e0 - margin):
+            if not (lo <= a <= hi):
+                continue
+            f = fresh_cached(z, u)
+            if f is None:
+                acc.degrade("fresh caching wrapper not constructible (_CachedDateTimeZone._for_zone): route histories skipped")
+                return
+            seq = [a] + [q for q in (a + span, a - span, a + 2 * span) if MIN_NS <= q <= MAX_NS]
+            try:
+                got0 = zw.iv_tuple(f.get_zone_interval(zw.mk_instant(a)))
+                acc.count(evaluations=1, transitions=1)
+                if got0 != t:
+                    zc.v("route-history", lambda: "fresh cached zone: get_zone_interval(%s) = %s, walked %s" % (zw.fmt_ns(a), zw.fmt_iv(got0), zw.fmt_iv(t)), instant_ns=a)
+                    continue
+                for i, q in enumerate(seq[1:]):
+                    want = (L[idx.at(q)] if idx.covers(q, q) else zw.iv_tuple(u.get_zone_interval(zw.mk_instant(q))))[3]
+                    off = f.get_utc_offset(zw.mk_instant(q)).seconds
+                    acc.count(evaluations=2, transitions=1)
+                    if off != want:
+                        zc.v("route-history", lambda: "fresh cached zone asked get_zone_interval(%s) and then get_utc_offset for %s: the offset at %s is reported as %+ds, the zone's offset there is %+ds" % (
+                            zw.fmt_ns(a), [zw.fmt_ns(x) for x in seq[1:i + 2]], zw.fmt_ns(q), off, want),
+                            instant_ns=q, history=seq[:i + 2], py=_py_route(zid, seq[:i + 2], want))
+                        break
+            except Exception as ex:  # noqa: BLE001
+                acc.lib_exception("C04/route-history/%s" % zid, ex, _case(zid, instant_ns=a, history=seq))
+        acc.outcome("route-history:interval-examined")
+
+
+def _py_route(zid, seq, want):
+    return ("from pyoda_time import Instant\nfrom pyoda_time.time_zones._tzdb_date_time_zone_source import TzdbDateTimeZoneSource\n\n"
+            "def test_replay():\n"
+            "    z = TzdbDateTimeZoneSource.default.for_id(%r)   # a fresh zone object with an empty interval cache\n"
+            "    mk = lambda ns: Instant.from_unix_time_ticks(ns // 100).plus_nanoseconds(ns %% 100)\n"
+            "    seq = %r\n"
+            "    z.get_zone_interval(mk(seq[0]))\n"
+            "    for ns in seq[1:]:\n"
+            "        off = z.get_utc_offset(mk(ns)).seconds\n"
+            "    assert off == %d  # == z.get_zone_interval(mk(seq[-1])).wall_offset.seconds on a fresh zone\n" % (zid, list(seq), want))
+
+
 def _py_history(zid, seq, exp):
     return ("from pyoda_time import Instant\nfrom pyoda_time.time_zones._tzdb_date_time_zone_source import TzdbDateTimeZoneSource\n\n"
             "def test_replay():\n"
@@ -367,6 +435,82 @@ def _zone_item(item):
     if len(acc.samples) < 1 and zid in ("Europe/Vienna", "Asia/Shanghai", "Asia/Gaza", "Europe/London"):
         acc.sample({"zone": zid, "windows": [(zw.fmt_ns(lo), zw.fmt_ns(hi)) for lo, hi in windows],
                     "first": ends[0][2] and zw.fmt_iv(ends[0][2][0]), "last": ends[-1][2] and zw.fmt_iv(ends[-1][2][1])})
+    return acc
+
+
+# ---- one zone object asked about every cache period of years 1..9999 (thorough tier) ---------------------------
+
+DEEP_HISTORY_ZONES = ("Europe/London", "Pacific/Apia")
+
+
+def _deep_history_item(zid):
+    """A single fresh cached zone is asked about the 16th day of every 32-day period from year 1 to year 9999 in ascending order
+    (about 114,000 distinct periods on one object - far beyond any cache capacity), then about every one of them once more; both answers
+    must be what the uncached zone says.  Reaches faults that need tens of thousands of cached periods on one object."""
+    acc = Acc()
+    zc = _Z(acc, zid)
+    try:
+        z = zw.provider("bundled")[zid]
+        u = zw.uncached(z)
+        f = fresh_cached(z, u) if u is not None else None
+        if f is None:
+            acc.degrade("fresh caching wrapper not constructible: deep single-object history skipped")
+            return acc
+        p0 = (zw.year_start_ns(1) // DAY_NS) >> 5
+        p1 = (zw.year_start_ns(9999) // DAY_NS) >> 5
+        want = {}
+        with zw.cpu_limit(900):
+            for rnd in (1, 2):
+                for pnum in range(p0, p1 + 1):
+                    q = (pnum * CACHE_PERIOD_DAYS + 16) * DAY_NS
+                    inst = zw.mk_instant(q)
+                    if rnd == 1:
+                        want[pnum] = zw.iv_tuple(u.get_zone_interval(inst))
+                    got = zw.iv_tuple(f.get_zone_interval(inst))
+                    acc.count(evaluations=2 if rnd == 1 else 1, transitions=1)
+                    if got != want[pnum]:
+                        zc.v("deep-history", lambda: "one cached zone object asked about every 32-day period from year 1 on: in round %d the answer for %s is %s, the uncached zone says %s" % (
+                            rnd, zw.fmt_ns(q), zw.fmt_iv(got), zw.fmt_iv(want[pnum])), instant_ns=q, round=rnd)
+                        return acc
+        acc.count(states=p1 - p0 + 1, nontrivial=len(set(want.values())))
+        acc.outcome("deep-history:periods-on-one-object", p1 - p0 + 1)
+    except zw.Hang as h:
+        zw.hang_violation(acc, "C04", zid, h, {"part": "deep-history"})
+    except Exception as ex:  # noqa: BLE001
+        acc.lib_exception("C04/deep-history/%s" % zid, ex, _case(zid))
+    return acc
+
+
+# ---- user zones with a reference description --------------------------------------------------------------
+
+def _user_item(specs):
+    """interval-list zones with 1..6 transitions packed into one cache period, and stored-periods+rules zones whose join needs the clamp:
+    the cached wrapper is walked and cross-examined exactly like a provider zone, the uncached zone underneath is its differential partner,
+    and the walked list must equal the reference list derived from the description"""
+    acc = Acc()
+    for spec in specs:
+        label = zw.user_zone_label(spec)
+        zc = _Z(acc, label)
+        try:
+            raw, cached, problems = zw.build_user_zone(spec)
+            for pr in problems:
+                acc.degrade("user zones: " + pr)
+            if raw is None:
+                continue
+            ref = zw.user_zone_ref(spec)
+            for lo, hi in zw.user_zone_windows(spec):
+                exp = tzrules.expected_intervals(ref, lo, hi)
+                with zw.cpu_limit(_cpu_limit(lo, hi)):
+                    if cached is not None:
+                        check_window(acc, zc, cached, raw, lo, hi, ref=exp)
+                    else:
+                        check_window(acc, zc, raw, None, lo, hi, ref=exp)
+            acc.outcome("user-zone:" + ("interval-list" if spec[0] == "packed" else "stored-periods+rules"))
+        except zw.Hang as h:
+            zw.hang_violation(acc, "C04", label, h, {"synthetic": list(spec)})
+        except Exception as ex:  # noqa: BLE001
+            acc.lib_exception("C04/user-zone/%s" % label, ex, {"synthetic": list(spec)})
+    acc.notes.pop("multi_transition_periods", None)
     return acc
 
 
@@ -460,7 +604,10 @@ def run(ctx):
                 "differs from it), counted per zone id; every interval is additionally queried at start, start+1ns, midpoint and end-1ns "
                 "through the provider's cached zone and through the zone underneath the cache; for every transition on the first/last day of a 32-day "
                 "cache period three operation histories (aliased periods +-512/+-1024 first, then around the transition, and reversed) are replayed on "
-                "fresh cached zones and compared with the uncached zone")
+                "fresh cached zones and compared with the uncached zone; for every 8th interval a two-route history (get_zone_interval at an instant, "
+                "then get_utc_offset 512/1024 periods away as the first question about that period); 60 user zones with a reference description "
+                "(1..6 transitions packed into / straddling one cache period; stored periods + rules with a clamped join) get the same treatment "
+                "through _CachedDateTimeZone._for_zone; thorough tier: one zone object asked twice about each of ~114,000 cache periods")
     ctx.assumptions = ["window plan (where the recurring tail starts) is read from the .nzd bytes by the independent decoder; it decides only where to walk",
                        "quick tier: recurring tails are walked for one full 400-year Gregorian cycle after the tail start plus 9997..9999 "
                        "(yearly rules are periodic in 146,097 days); thorough tier walks every canonical zone to the end of time",
@@ -507,6 +654,14 @@ def run(ctx):
         for must in ("Europe/Vienna", "Asia/Shanghai", "Asia/Gaza"):
             if must not in ex:
                 ctx.cap("expected multi-transition cache period not met in %s (data changed?)" % must)
+    if not only or "user-zones" in only:
+        us = zw.user_zone_specs()
+        for a in pmap(_user_item, [us[i::12] for i in range(12)]):
+            ctx.merge_part("user-zones", a)
+        ctx.note("user_zones_with_reference", len(us))
+    if tier == "thorough" and (not only or "deep-history" in only):
+        for a in pmap(_deep_history_item, list(DEEP_HISTORY_ZONES)):
+            ctx.merge_part("deep-history", a)
     if not only or "fixed" in only:
         offs = [None] + fixed_offsets()
         shards = [offs[i::16] for i in range(16)]
